@@ -147,7 +147,7 @@ def fixed_programs():
     out.append({"params": mp5, "names": [], "funs": [], "consts": [], "macros": [], "body": ("op", "+", [("var", "AA"), deep]), "tag": "deepnest_main"})
     out.append({"params": mp5, "names": [], "funs": [{"name": "DEEPF", "kind": "defun", "params": ("p", [("n", "P", "I")], None), "names": [], "body": ("op", "+", [("int", 1), deep[2][1]]) if False else ("var", "P"), "rtype": "I"}],
                 "consts": [], "macros": [], "body": ("op", "+", [("var", "AA"), ("call", "DEEPF", [deep], None)]), "tag": "deepnest_arg"})
-    out.append({"params": mp5, "names": [], "funs": [], "consts": [], "macros": [], "body": ("list", [("int", i) for i in range(121)] + [("var", "BB")]), "tag": "deepnest_list"})
+    out.append({"params": mp5, "names": [], "funs": [], "consts": [], "macros": [], "body": ("list", [("int", i if i != 64 else 164) for i in range(121)] + [("var", "BB")]), "tag": "deepnest_list"})
     # functions whose compiled code is identical (one symbol-table key for both) but whose parameter lists differ
     def fn(name, params, body, kind="defun"):
         return {"name": name, "kind": kind, "params": ("p", [("n", x, "I") for x in params], None), "names": [], "body": body, "rtype": "I"}
@@ -215,6 +215,10 @@ def compute(ck, n_programs, depth=2, dialects=None, want_syms=False):
         if r.startswith("OK "):
             parts = r[3:].split("\t")
             b["code"] = parts[0]
+            # cl22: a compiler-renamed identifier (NAME_$_n) emitted as a constant is the identifier leak D18 whatever the
+            # program's shape; the bytes also vary with the fresh-name counter
+            if d == "cl22" and "5f245f" in parts[0] and not b["known"]:
+                b["known"] = "D18-cl22-identifier-leak"
             b["syms"] = parts[1] if len(parts) > 1 else "{}"
             for k, a in enumerate(recs[i]["args_clvm"]):
                 runl.append("run\t2\t%s\t%s" % (b["code"], a))
